@@ -108,7 +108,9 @@ def render_decl(d, ind="  "):
             text = v["text"] if "text" in v else str(v["ord"])
             com = _comment(v, ind + "    ")
             a = _attrs([("name", v.get("name"))])
-            if com:
+            if com and v.get("text_after_comment"):
+                out += f"{ind}  <value{a}>\n{com}{ind}    {escape(text)}\n{ind}  </value>\n"
+            elif com:
                 out += f"{ind}  <value{a}>{escape(text)}\n{com}{ind}  </value>\n"
             else:
                 out += f"{ind}  <value{a}>{escape(text)}</value>\n"
